@@ -76,7 +76,11 @@ def run_tlc(
     spec_dir = os.path.join(SPEC_ROOT, area)
     cfg = cfg or module
     meta = os.path.join(tmp, f"tlcmeta-{module}-{cfg}-{os.getpid()}-{time.time_ns()}")
-    cmd = _java_cmd(heap, None) + [
+    # TLC and SANY create scratch directories under java.io.tmpdir on every start: keep them inside the check's own
+    # scratch directory (removed at the end of the run) instead of littering /tmp
+    jtmp = os.path.join(tmp, "jtmp")
+    os.makedirs(jtmp, exist_ok=True)
+    cmd = _java_cmd(heap, [f"-Djava.io.tmpdir={jtmp}"]) + [
         "-workers", str(workers),
         "-metadir", meta,
         "-noGenerateSpecTE",
